@@ -4,6 +4,7 @@
 #    repository's tests, and that the demonstration fails with it and passes without it;
 # 2. applies the change to /repo, runs the quick checks of the given properties, and undoes it.
 set -u
+HOME_DIR=$(cd "$(dirname "$0")/.." && pwd)
 SEED=$1; shift
 export GOFLAGS=-mod=mod GOPROXY=off GOSUMDB=off GOTOOLCHAIN=local
 # the repository's own tests in scratch worktrees use a scratch build cache that is emptied when it has grown
@@ -37,7 +38,7 @@ rm -f /tmp/seedtest.*.$$
 rm -f $WT/$DEMO
 OUT=/tmp/seedout.$$; mkdir -p $OUT
 for id in "$@"; do
-  cd /verif && VERIF_REPO=$WT/v4 VERIF_OUT=$OUT timeout 1200 ./run.sh $id ${SEED_TIER:-quick} > /tmp/seedrun.$$ 2>&1; rc=$?
+  cd "$HOME_DIR" && VERIF_REPO=$WT/v4 VERIF_OUT=$OUT timeout 1200 ./run.sh $id ${SEED_TIER:-quick} > /tmp/seedrun.$$ 2>&1; rc=$?
   echo "== check $id exit=$rc: $(grep -c '^VIOLATION' /tmp/seedrun.$$) violation signatures"
   grep -A2 "signature:" /tmp/seedrun.$$ | cut -c1-240 | head -9
   tail -1 /tmp/seedrun.$$
